@@ -105,9 +105,9 @@ CLAIMED = {
         technique='Lean 4 loop-induction theorem on the interpreter port (fragment) + correspondence + planted-literal search',
         design="§4 C06"),
     "C07": dict(
-        text='Proved over the port: binding tables behave as maps (get after set, frame); a matrix with =n binds exactly the segment at the matched position; a segment variable in a context matches iff the segment there EQUALS the captured bundle (all four nodes) and a syllable variable iff segments (in matching direction), stress and tone are equal; writing a captured segment back where it was read leaves the word unchanged. PARTIAL: the end-to-end identities (X1=1..Xk=k > 1..k, [αF] > [αF], A > B / X=1 _ 1) are decided by the c07-spec search and the correspondence; stress alphas on secondary stress are the known finding D7; the structure-variable defect was repaired (fix: commit).',
+        text='Proved over the port: binding tables behave as maps (get after set, frame); a matrix with =n binds exactly the segment at the matched position; a segment variable in a context matches iff the segment there EQUALS the captured bundle (all four nodes) and a syllable variable iff segments (in matching direction), stress and tone are equal; writing a captured segment back where it was read leaves the word unchanged. End to end (Props/C07Scan, induction over the whole scan of the interpreter port): the rule `[matrix]=k > k` without environment returns EVERY word unchanged, whatever the word, however many matches, long segments included (variable_identity_rule). PARTIAL: the other end-to-end identities (k>1 elements, environments, [αF] > [αF], A > B / X=1 _ 1) are decided by the c07-spec search and the correspondence; stress alphas on secondary stress are the known finding D7; the structure-variable defect was repaired (fix: commit).',
         note='Trusted: Lean kernel, standard axioms (+ bv_decide certificates where the bit layer is used); the hand port of subrule.rs/rule.rs/syll.rs (Model/Interp), tied to the code on every run by the interp-ops correspondence (identical outcome class and word on ~27k generated cases quick / 400k thorough, release profile); generators and labels of the search.',
-        technique='Lean 4 component theorems on the port + correspondence + identity search',
+        technique='Lean 4 component theorems + whole-scan identity theorem on the port + correspondence + identity search',
         design="§4 C07"),
     "C08": dict(
         text='Proved for every bundle (2^40): every grapheme of cardinals.json is well formed; set_feat for every feature of the table and both polarities, adding/removing any place (sub-)node and [-place] - the only ways parser and interpreter modify a bundle - preserve SegWF (defined bits only, place not Some(0), nothing stored under an absent sub-node). PARTIAL: the word-level invariants (>=1 syllable, no empty syllable, tone shape) over rule sequences are decided by c08-spec (Word.WF on every intermediate word) and the correspondence; they are false on the pinned tree for boundaries inserted/moved at a word edge, empty structures and whole-word deletion (known findings D8a-D8d).',
